@@ -1221,6 +1221,8 @@ def generate_sample(
 
     calling_form = types.CallingForm.method_default(rpc)
     sample["is_internal"] = rpc.is_internal
+    # The method exposed by the client (a keyword-named rpc gets a trailing underscore).
+    sample["client_method_name"] = utils.to_snake_case(rpc.client_method_name)
 
     v = Validator(rpc, api_schema)
     # Tweak some small aspects of the sample to set defaults for optional
